@@ -8,6 +8,7 @@ import AmqModel.Driver.ApiEngine
 import AmqModel.Driver.HandshakeEngine
 import AmqModel.Driver.HeartbeatEngine
 import AmqModel.Driver.ObeyEngine
+import AmqModel.Driver.PassEngine
 namespace AmqModel.Driver
 
 def engineByName : String → Option Engine
@@ -27,6 +28,7 @@ def engineByName : String → Option Engine
   | "hs-legacy" => some handshakeLegacyEngine
   | "heartbeat" => some heartbeatEngine
   | "obey" => some obeyEngine
+  | "pass" => some passEngine
   | _ => none
 
 end AmqModel.Driver
